@@ -1,38 +1,12 @@
 use std::time::Instant;
-use vharness::base::*;
-use vharness::oracle::phon::PhonOracle;
-use vharness::phonjudge::classify;
 fn main() {
-    install_panic_hook();
-    let spec = CfgSpec::new(Lay::Phonetic, O_PSUGG);
-    let root = std::path::PathBuf::from("/dev/shm/vbench");
-    fresh_root(&root);
-    let sess = Sess::new(spec, &root).unwrap();
-    let mut o = PhonOracle::new().unwrap();
-    let mut keys: Vec<String> = o.ac.keys().filter(|k| k.chars().all(|c| c.is_ascii_alphanumeric())).cloned().collect();
-    keys.sort();
-    keys.truncate(600);
-    let t0 = Instant::now();
-    let mut lists = vec![];
-    let mut nev = 0;
-    for k in &keys {
-        let s = sess.type_text_protocol(k).unwrap().unwrap();
-        nev += k.len();
-        lists.push(s.get_suggestions().to_vec());
-        sess.finish().unwrap();
+    let rx = okkhor::parser::Parser::new_regex();
+    for pat in ["ngkkh", "o", "a", "rri", "OI", "kkh", "ng", "x", "q", "e", "i", "u", "z", "t", "n", "y", "w", "ou", "oo", "ao"] {
+        let mut lo = 1usize; let mut hi = 6000usize;
+        let fails = |n: usize| { let s: String = pat.chars().cycle().take(n).collect(); regex::Regex::new(&rx.convert_regex(&s)).is_err() };
+        if !fails(hi) { println!("{pat}: no failure up to {hi}"); continue; }
+        while lo < hi { let mid = (lo + hi) / 2; if fails(mid) { hi = mid } else { lo = mid + 1 } }
+        let t = Instant::now(); let s: String = pat.chars().cycle().take(lo).collect(); let _ = regex::Regex::new(&rx.convert_regex(&s));
+        println!("{pat}: first failing length {lo} (compile attempt {:?})", t.elapsed());
     }
-    let t1 = Instant::now();
-    println!("riti: {} texts {} events in {:?} ({:.1} us/event)", keys.len(), nev, t1 - t0, (t1 - t0).as_micros() as f64 / nev as f64);
-    let mut ncand = 0;
-    for (k, l) in keys.iter().zip(&lists) {
-        let v = classify(&mut o, &spec, k, l, None);
-        ncand += v.classes.len();
-    }
-    let t2 = Instant::now();
-    println!("oracle: {} candidates in {:?} ({:.1} us/list)", ncand, t2 - t1, (t2 - t1).as_micros() as f64 / keys.len() as f64);
-    let t3 = Instant::now();
-    for k in &keys {
-        let _ = regex::Regex::new(&o.rx.convert_regex(k)).unwrap();
-    }
-    println!("regex compile: {:.1} us/word", t3.elapsed().as_micros() as f64 / keys.len() as f64);
 }
